@@ -111,6 +111,97 @@ let cmd_bloom args =
 let handlers : (string * (string list -> unit)) list ref =
   ref [ ("bloom", cmd_bloom); ("cfg", (fun _ -> emit "cfg")); ("autoquiesce", (fun _ -> emit "autoquiesce")) ]
 
+
+(* ---------- storage (L3) ---------- *)
+let st : storage ref = ref init_storage
+let st_k = ref 4
+let st_cfg = ref { c_dup = true; c_maxrec = n_of_int 1000000; c_maxsize = n_of_int 1000000000 }
+let st_lazy = ref false
+
+let meta_of = function
+  | "-" -> (None, 8) | "m0" -> (Some 0, 8) | "m1" -> (Some 1, 26) | "m2" -> (Some 2, 53) | "m3" -> (Some 3, 350)
+  | m -> failwith ("meta " ^ m)
+let meta_name n = match int_of_n n with 0 -> "m0" | 1 -> "m1" | 2 -> "m2" | 3 -> "m3" | _ -> "m?"
+let err_name = function
+  | EActiveBlobExists -> "ActiveBlobExists" | EActiveBlobDoesntExist -> "ActiveBlobDoesntExist"
+  | EUninitialized -> "Uninitialized" | EIndex -> "Index" | EActiveBlobNotSet -> "ActiveBlobNotSet"
+  | ENoStorage -> "NoStorage"
+let rec_str r =
+  Printf.sprintf "(%s,%d,%s,%s:%s)" (dec_of_n r.r_ts) (if r.r_del then 1 else 0) (meta_name r.r_meta)
+    (dec_of_n r.r_dlen) (dec_of_n r.r_dseed)
+
+let do_op name o =
+  let (s', r) = step_q (n_of_int !st_k) !st_cfg !st o in
+  st := s';
+  match r with
+  | RErr ENoStorage -> emit (name ^ " NoStorage")
+  | RErr e -> emit (name ^ " Err " ^ err_name e)
+  | RUnit -> emit (name ^ (match name with
+      | "bg_close" | "bg_create" | "bg_restore" | "force_update" | "free_excess" -> " sent"
+      | "sleep" | "drop" -> "" | _ -> " ok"))
+  | RNum n -> emit (name ^ " " ^ (if name = "rmindex" then (if int_of_n n = 1 then "ok" else "absent") else dec_of_n n))
+  | RRead (Found r) ->
+    if name = "C" then emit (name ^ " Found " ^ dec_of_n r.r_ts)
+    else emit (Printf.sprintf "%s Found %s %s" name (dec_of_n r.r_dlen) (dec_of_n r.r_dseed))
+  | RRead (Deleted t) -> emit (name ^ " Deleted " ^ dec_of_n t)
+  | RRead NotFound -> emit (name ^ " NotFound")
+  | RList l -> emit (name ^ " [" ^ String.concat " " (List.map rec_str l) ^ "]")
+  | RCounts (records, det, act, blobs, next, corr, has) ->
+    emit (Printf.sprintf "counts records=%s detailed=[%s] active=%s blobs=%s next=%s corrupted=%s has_active=%d"
+            (dec_of_n records)
+            (String.concat "," (List.map (fun (i, n) -> dec_of_n i ^ ":" ^ dec_of_n n) det))
+            (match act with Some n -> dec_of_n n | None -> "none")
+            (dec_of_n blobs) (dec_of_n next) (dec_of_n corr) (if has then 1 else 0))
+  | RAlive b -> emit (name ^ (if b then " alive" else " dead"))
+
+let key_of s = n_of_hex s
+
+let cmd_cfg args =
+  List.iter (fun tok ->
+      match String.split_on_char '=' tok with
+      | ["K"; v] -> st_k := int_of_string v
+      | ["dup"; v] -> st_cfg := { !st_cfg with c_dup = (v = "1") }
+      | ["maxrec"; v] -> st_cfg := { !st_cfg with c_maxrec = n_of_string v }
+      | ["maxsize"; v] -> st_cfg := { !st_cfg with c_maxsize = n_of_string v }
+      | ["init"; v] -> st_lazy := (v = "lazy")
+      | _ -> ()) args;
+  emit "cfg"
+
+let storage_handlers = [
+  ("cfg", cmd_cfg);
+  ("open", (fun _ -> do_op "open" (OOpen !st_lazy)));
+  ("W", (function [k; ts; meta; len; seed] ->
+      let (m, ms) = meta_of meta in
+      do_op "W" (OWrite (key_of k, n_of_string ts, (match m with Some i -> Some (n_of_int i) | None -> None), n_of_int ms, n_of_string len, n_of_string seed))
+                  | _ -> failwith "W args"));
+  ("D", (function [k; ts; meta; oip] ->
+      let (m, ms) = meta_of meta in
+      do_op "D" (ODelete (key_of k, n_of_string ts, (match m with Some i -> Some (n_of_int i) | None -> None), n_of_int ms, oip = "1"))
+                  | _ -> failwith "D args"));
+  ("R", (function [k] -> do_op "R" (ORead (key_of k)) | _ -> failwith "R args"));
+  ("RW", (function [k; m] -> (match meta_of m with (Some i, _) -> do_op "RW" (OReadWith (key_of k, n_of_int i)) | _ -> failwith "RW meta") | _ -> failwith "RW args"));
+  ("C", (function [k] -> do_op "C" (OContains (key_of k)) | _ -> failwith "C args"));
+  ("RA", (function [k] -> do_op "RA" (OReadAll (key_of k)) | _ -> failwith "RA args"));
+  ("RD", (function [k] -> do_op "RD" (OReadAllDm (key_of k)) | _ -> failwith "RD args"));
+  ("close_active", (fun _ -> do_op "close_active" OCloseActive));
+  ("create_active", (fun _ -> do_op "create_active" OCreateActive));
+  ("restore_active", (fun _ -> do_op "restore_active" ORestoreActive));
+  ("bg_close", (fun _ -> do_op "bg_close" OBgClose));
+  ("bg_create", (fun _ -> do_op "bg_create" OBgCreate));
+  ("bg_restore", (fun _ -> do_op "bg_restore" OBgRestore));
+  ("force_update", (function [p] ->
+      let n = (match p with "always" -> 0 | "never" -> 1 | "some" -> 2 | "nonempty" -> 3 | _ -> failwith "pred") in
+      do_op "force_update" (OForceUpdate (n_of_int n)) | _ -> failwith "force_update args"));
+  ("free_excess", (fun _ -> do_op "free_excess" OFreeExcess));
+  ("quiesce", (fun _ -> do_op "quiesce" OQuiesce));
+  ("sleep", (fun _ -> do_op "sleep" OSleep));
+  ("counts", (fun _ -> do_op "counts" OCounts));
+  ("close", (fun _ -> do_op "close" OClose));
+  ("drop", (fun _ -> do_op "drop" ODrop));
+  ("rmindex", (function [id] -> do_op "rmindex" (ORmIndex (n_of_string id)) | _ -> failwith "rmindex args"));
+]
+let () = handlers := storage_handlers @ (List.filter (fun (n, _) -> n <> "cfg") !handlers)
+
 let run_script path outpath =
   let ic = open_in path in
   (try
@@ -138,7 +229,8 @@ let main () =
   let n = Array.length Sys.argv in
   let i = ref 1 in
   while !i + 1 < n do
-    Hashtbl.reset blooms; Hashtbl.reset raws;
+    Hashtbl.reset blooms; Hashtbl.reset raws; st := init_storage; st_k := 4; st_lazy := false;
+    st_cfg := { c_dup = true; c_maxrec = n_of_int 1000000; c_maxsize = n_of_int 1000000000 };
     run_script Sys.argv.(!i) Sys.argv.(!i + 1);
     i := !i + 2
   done
